@@ -19,6 +19,7 @@ from vlib.content import num
 PROPS = ["MxlVerif.Props.C05"]
 F_HOMODIMER = "F-C05-1"
 F_ZEROLABEL = "F-C05-2"
+F_DANGLING = "F-C05-4"
 
 # --------------------------------------------------------------------------- wire helpers
 
@@ -794,9 +795,11 @@ def judge_case(ctx, case, R, M):
     ctx.judge(sub, R["uraw"], spec_unmapped(case), None if M is None else M["uraw"],
               what="reactions without a label map: own name, totals as arguments, stoichiometry untouched")
     if cov:  # (a map that does not cover the product atoms leaves dangling product names of its own: outside the domain)
-        ctx.judge(sub, R["evaluates"], {"err": ["KeyError"]} if spec_dangling(case) else {"ok": True},
-              None if M is None else M["evaluates"],
-              what="the labelled model evaluates unless an unmapped reaction changes a labelled compound (then KeyError)")
+        # a labelled model that was built can be evaluated - except finding F-C05-4: an unmapped reaction that changes
+        # a compound with label positions leaves a dangling name (R = M = KeyError, class = spec_dangling)
+        ctx.judge(sub, R["evaluates"], {"ok": True}, None if M is None else M["evaluates"],
+                  finding=F_DANGLING if spec_dangling(case) else None,
+                  what="the labelled model that build_model returned evaluates at its initial state")
     ru = raw_unmapped(case)
     if ru:
         # their coefficients are compared above as written; the integer reaction lists below leave them out
